@@ -206,6 +206,13 @@ func (c *Collection) set(key string, exp Exp, opts *sgbucket.UpsertOptions, val 
 		if err != nil {
 			return nil, err
 		}
+		if opts != nil && opts.PreserveExpiry {
+			// the event must carry the expiry that was actually kept
+			row := txn.QueryRow(`SELECT exp FROM documents WHERE collection=?1 AND key=?2`, c.id, key)
+			if err = scan(row, &exp); err != nil {
+				return nil, remapKeyError(err, key)
+			}
+		}
 		return &event{
 			key:      key,
 			value:    val,
